@@ -50,6 +50,7 @@ def guards : List (String × Bool) := [
   ("handle_remote_manifest:disabled-branch-returns-RemoteManifestUrl", true),
   ("load_jumbf_from_stream:remote-only-after-JumbfNotFound", true),
   ("claim::check_ocsp_status:policy-from-ocsp_fetch", true),
+  ("store.rs:check_ocsp_status-is-the-claim-level-wrapper", true),
   ("cose::check_ocsp_status:fetch-inside-FetchAllowed", true),
   ("cose::check_ocsp_status:usable-stapled-returns-before-fetch", true),
   ("get_manifest_labels_for_ocsp:none-gives-no-labels", true),
@@ -59,6 +60,45 @@ def guards : List (String × Bool) := [
   ("Builder::sign:maybe_add_timestamp-inside-if-let-Some-tsa_url", true),
   ("maybe_add_timestamp:early-return-when-disabled-and-no-labels", true),
   ("Manifest::from_store:identity-validation-inside-decode_identity_assertions", true)
+]
+
+/-- (file, enclosing fn) of every non-test `Context::new()` / `Context::default()` that is not
+configured with `.with_settings(…)` on the spot -/
+def freshContexts : List (String × String) := [
+  ("crypto/time_stamp/provider.rs", "send_time_stamp_request"),
+  ("reader.rs", "default"),
+  ("signer.rs", "send_timestamp_request"),
+  ("store.rs", "default"),
+  ("utils/test.rs", "create_test_store"),
+  ("utils/test.rs", "create_test_store_v1")
+]
+
+/-- (file, enclosing fn) of every construction, outside sdk/src/http, of an HTTP client that follows
+redirects by itself (`SyncGenericResolver::with_redirects()` / `AsyncGenericResolver::with_redirects()`) -/
+def nativeRedirectClients : List (String × String) := [
+  ("settings/signer.rs", "sign")
+]
+
+/-- (what, file, enclosing fn): calls of `check_ocsp_status`, uses of `OcspFetchPolicy::FetchAllowed`,
+calls of `send_timestamp_request` / `send_time_stamp_request` -/
+def policySites : List (String × String × String) := [
+  ("OcspFetchPolicy::FetchAllowed", "claim.rs", "check_ocsp_status"),
+  ("OcspFetchPolicy::FetchAllowed", "crypto/cose/ocsp.rs", "check_ocsp_status"),
+  ("check_ocsp_status", "claim.rs", "check_ocsp_status"),
+  ("check_ocsp_status", "claim.rs", "verify_claim"),
+  ("check_ocsp_status", "store.rs", "get_ocsp_status"),
+  ("send_time_stamp_request", "crypto/cose/sigtst.rs", "add_sigtst_header"),
+  ("send_timestamp_request", "cose_sign.rs", "send_time_stamp_request"),
+  ("send_timestamp_request", "settings/signer.rs", "send_timestamp_request"),
+  ("send_timestamp_request", "signer.rs", "send_timestamp_request")
+]
+
+/-- (file, implementing type, overridden methods) of every
+`impl TimeStampProvider for …` / `impl AsyncTimeStampProvider for …` -/
+def tsProviders : List (String × String × List String) := [
+  ("cose_sign.rs", "AsyncSignerWrapper", ["send_time_stamp_request", "time_stamp_request_body", "time_stamp_request_headers", "time_stamp_service_url"]),
+  ("cose_sign.rs", "SignerWrapper", ["send_time_stamp_request", "time_stamp_request_body", "time_stamp_request_headers", "time_stamp_service_url"]),
+  ("crypto/cose/cose_signer.rs", "RawSignerCoseSigner", [])
 ]
 
 end C2pa.C28.Gen
